@@ -10,6 +10,7 @@ import (
 	"net"
 	"net/http"
 	"os"
+	"runtime"
 	"sort"
 	"strconv"
 	"sync"
@@ -26,27 +27,38 @@ import (
 
 // Obs is what the real host did with one item.
 type Obs struct {
-	Reply     []byte              `json:"reply,omitempty"`  // bytes seen on the api topic / returned by the handler
-	HasReply  bool                `json:"has_reply"`        //
-	ErrText   string              `json:"err_text"`         // direct mode: err.Error()
-	IsErr     bool                `json:"is_err"`           // direct mode: err != nil
-	WsReply   []byte              `json:"ws_reply"`         // ws mode: what the websocket client itself read (may be missing)
-	WsSeen    bool                `json:"ws_seen"`          //
-	CtlSeen   bool                `json:"ctl_seen"`         // ctl mode: the reply came back over the control connection itself
-	CtlReply  []byte              `json:"ctl_reply"`        //
-	Fallback  bool                `json:"fallback"`         // ctl mode: no control connection was up (rule re-pointed); sent over the topic instead
-	Resent    bool                `json:"resent"`           // the hub dropped the command before it reached the handler; sent again
-	Stuck     bool                `json:"stuck"`            // after this item the rule hubs (rwc/agg loops) did not take a no-op within 3 s
-	NoReply   bool                `json:"no_reply"`         // nothing within the deadline (twice)
-	Exit      bool                `json:"exit"`             // the host process ended while handling this item
-	Status    int                 `json:"status"`           // HTTP
-	Body      []byte              `json:"body,omitempty"`   //
-	CType     string              `json:"ctype,omitempty"`  //
-	HTTPErr   string              `json:"http_err"`         // transport error = no complete response
-	Dests     map[string]rwc.Rule `json:"dests"`            // app.Websocket.Rules afterwards
-	Streams   map[string][]string `json:"streams"`          // app.Hub.Rules afterwards
-	StderrEnd string              `json:"stderr,omitempty"` // last lines of the child's stderr when it ended
-	APIUsed   string              `json:"api_used,omitempty"` // ctl mode, first line only: the control destination the child set up
+	Reply     []byte              `json:"reply,omitempty"`   // bytes seen on the api topic / returned by the handler
+	HasReply  bool                `json:"has_reply"`         //
+	ErrText   string              `json:"err_text"`          // direct mode: err.Error()
+	IsErr     bool                `json:"is_err"`            // direct mode: err != nil
+	WsReply   []byte              `json:"ws_reply"`          // ws mode: what the websocket client itself read (may be missing)
+	WsSeen    bool                `json:"ws_seen"`           //
+	CtlSeen   bool                `json:"ctl_seen"`          // ctl mode: the reply came back over the control connection itself
+	CtlReply  []byte              `json:"ctl_reply"`         //
+	Fallback  bool                `json:"fallback"`          // ctl mode: no control connection was up (rule re-pointed); sent over the topic instead
+	Resent    bool                `json:"resent"`            // the hub dropped the command before it reached the handler; sent again
+	NoSnap    bool                `json:"no_snap,omitempty"` // (parent, pipelined view) the tables were not read after this command
+	Stuck     bool                `json:"stuck"`             // after this item the rule hubs (rwc/agg loops) did not take a no-op within 3 s
+	NoReply   bool                `json:"no_reply"`          // nothing within the deadline (twice)
+	Exit      bool                `json:"exit"`              // the host process ended while handling this item
+	Status    int                 `json:"status"`            // HTTP
+	Body      []byte              `json:"body,omitempty"`    //
+	CType     string              `json:"ctype,omitempty"`   //
+	HTTPErr   string              `json:"http_err"`          // transport error = no complete response
+	Dests     map[string]rwc.Rule `json:"dests"`             // app.Websocket.Rules afterwards
+	Streams   map[string][]string `json:"streams"`           // app.Hub.Rules afterwards
+	StderrEnd string              `json:"stderr,omitempty"`  // last lines of the child's stderr when it ended
+	APIUsed   string              `json:"api_used,omitempty"`
+	// pipelined session (one observation for the whole session)
+	Topic  []TopicMsg `json:"topic,omitempty"`  // everything seen on the api topic, in hub order: commands and replies
+	Frames [][][]byte `json:"frames,omitempty"` // per controller: the websocket messages it received, in order // ctl mode, first line only: the control destination the child set up
+}
+
+// TopicMsg is one message on the api topic as the in-process observer saw it.
+type TopicMsg struct {
+	Reply bool   `json:"reply"` // sent by the admin client (a reply), otherwise a command from a controller
+	From  string `json:"from"`  // the hub name of the sender
+	Data  []byte `json:"data"`
 }
 
 const replyWait = 2 * time.Second
@@ -138,7 +150,7 @@ func childMain() {
 		time.Sleep(5 * time.Millisecond)
 	}
 	// observers of the api topic
-	tap := &hub.Client{Hub: app.Hub.Hub, Name: "verif-tap", Topic: "api", Send: make(chan hub.Message, 256), Stats: hub.NewClientStats()}
+	tap := &hub.Client{Hub: app.Hub.Hub, Name: "verif-tap", Topic: "api", Send: make(chan hub.Message, 16384), Stats: hub.NewClientStats()}
 	app.Hub.Register <- tap
 	inj := &hub.Client{Hub: app.Hub.Hub, Name: "verif-inj", Topic: "api", Send: make(chan hub.Message, 256), Stats: hub.NewClientStats()}
 	var wsc *websocket.Conn
@@ -163,6 +175,10 @@ func childMain() {
 	if ctl != nil && !ctl.waitConn(10*time.Second) {
 		fmt.Fprintln(os.Stderr, "the host did not open its control connection within 10 s")
 		os.Exit(3)
+	}
+	if s.Mode == "pipe" {
+		pipeSession(app, base, tap, s, emit)
+		os.Exit(0)
 	}
 	barrier(app)
 	time.Sleep(5 * time.Millisecond)
@@ -290,6 +306,99 @@ func childMain() {
 		}
 	}
 	os.Exit(0)
+}
+
+// pipeSession: the session's controllers connect to /ws/api, all send their commands back to back without
+// waiting for a reply, and everything they receive is collected; the topic is watched in-process.
+func pipeSession(app *vw.App, base string, tap *hub.Client, s Session, emit func(Obs)) {
+	n := s.Controllers
+	conns := make([]*websocket.Conn, n)
+	frames := make([][][]byte, n)
+	var mu sync.Mutex
+	last := time.Now()
+	for c := 0; c < n; c++ {
+		conn, _, err := websocket.DefaultDialer.Dial("ws://"+base+"/ws/api", nil)
+		if err != nil {
+			fmt.Fprintln(os.Stderr, "ws dial:", err)
+			os.Exit(3)
+		}
+		conns[c] = conn
+		go func(c int) {
+			for {
+				_, d, err := conn.ReadMessage()
+				if err != nil {
+					return
+				}
+				mu.Lock()
+				frames[c] = append(frames[c], d)
+				last = time.Now()
+				mu.Unlock()
+			}
+		}(c)
+	}
+	var topic []TopicMsg
+	stopTap := make(chan struct{})
+	tapDone := make(chan struct{})
+	go func() {
+		defer close(tapDone)
+		for {
+			select {
+			case m := <-tap.Send:
+				mu.Lock()
+				topic = append(topic, TopicMsg{Reply: m.Sender.Name == "admin", From: m.Sender.Name, Data: m.Data})
+				last = time.Now()
+				mu.Unlock()
+			case <-stopTap:
+				return
+			}
+		}
+	}()
+	barrier(app)
+	time.Sleep(10 * time.Millisecond)
+	var wg sync.WaitGroup
+	start := make(chan struct{})
+	for c := 0; c < n; c++ {
+		wg.Add(1)
+		go func(c int) {
+			defer wg.Done()
+			<-start
+			k := 0
+			for _, it := range s.Items {
+				if it.Ctl == c {
+					_ = conns[c].WriteMessage(websocket.TextMessage, it.Msg)
+					k++
+					if s.GapUs > 0 && k%3 == 0 {
+						time.Sleep(time.Duration(s.GapUs) * time.Microsecond)
+					}
+				}
+			}
+		}(c)
+	}
+	close(start)
+	wg.Wait()
+	// done when nothing has moved for a while
+	t0 := time.Now()
+	for time.Since(t0) < 8*time.Second {
+		mu.Lock()
+		quiet := time.Since(last) > 250*time.Millisecond
+		mu.Unlock()
+		if quiet {
+			break
+		}
+		time.Sleep(10 * time.Millisecond)
+	}
+	var o Obs
+	ok := snapshot(app, &o)
+	_ = ok
+	close(stopTap)
+	<-tapDone
+	mu.Lock()
+	o.Topic = topic
+	o.Frames = frames
+	mu.Unlock()
+	o.HasReply = true
+	emit(o)
+	runtime.KeepAlive(conns)
 }
 
 // ctlRelay is the far end of the control connection.
